@@ -13,6 +13,7 @@ import numpy as np
 
 from engine import harness
 from engine.stubs_sparse import SymCSR, make_csr, selfcheck
+from engine.sym import tosym
 
 
 def dense(A, h):
@@ -93,6 +94,52 @@ def check_enforce(h, tag, n, Ad, A, b, x, D, kw, diag=None):
             want = (dg if i == j else 0.0) if i in Dset else Ad[i, j]
             h.zero('%s:A[%d,%d]' % (tag, i, j), Do[i, j] - want)
         h.zero('%s:b[%d]' % (tag, i), bo[i] - (x[i] if i in Dset else b[i]))
+
+
+def check_defaults(h, tag, n, Ad, A, b, x, D, I, kw, eps):
+    """Omitted arguments: x omitted == x = 0; b omitted with x given == b = 0; both omitted -> the matrix alone; expand=False."""
+    from skfem.utils import enforce, condense, penalize
+    Dset = set(int(d) for d in D)
+    zero = 0 * x[0] if n else 0
+    # --- enforce ---
+    Ao, bo = enforce(A, b, **kw)
+    for i in range(n):
+        h.zero('%s:enforce(x omitted):b[%d]' % (tag, i), bo[i] - (zero if i in Dset else b[i]))
+    Ao2, bo2 = enforce(A, x=x, **kw)
+    for i in range(n):
+        h.zero('%s:enforce(b omitted):b[%d]' % (tag, i), bo2[i] - (x[i] if i in Dset else zero))
+    Am = enforce(A, **kw)
+    h.concrete('%s:enforce(matrix only) returns one matrix' % tag, not isinstance(Am, tuple))
+    if not isinstance(Am, tuple):
+        Dm, Dr = dense(Am, h), dense(Ao, h)
+        for i in range(n):
+            for j in range(n):
+                h.zero('%s:enforce(matrix only):A[%d,%d]' % (tag, i, j), Dm[i, j] - Dr[i, j])
+    # --- penalize ---
+    Pm = penalize(A, epsilon=eps, **kw)
+    h.concrete('%s:penalize(matrix only) returns one matrix' % tag, not isinstance(Pm, tuple))
+    if not isinstance(Pm, tuple):
+        Dp = dense(Pm, h)
+        for i in range(n):
+            for j in range(n):
+                h.zero('%s:penalize(matrix only):A[%d,%d]' % (tag, i, j), Dp[i, j] - ((1.0 / eps) if (i == j and i in Dset) else Ad[i, j]))
+    # --- condense ---
+    if 0 < len(D) < n:
+        Ac, bc, xx, II = condense(A, b, **kw)
+        II = np.asarray(II)
+        for p_, i in enumerate(II):
+            h.zero('%s:condense(x omitted):b[%d]' % (tag, p_), bc[p_] - b[i])
+        h.concrete('%s:condense(x omitted): expansion vector is zero' % tag, all(bool(tosym(v) == 0) if h.sym_mode else v == 0 for v in np.asarray(xx)))
+        out = condense(A, b, x=x, expand=False, **kw)
+        h.concrete('%s:condense(expand=False) returns (A, b)' % tag, isinstance(out, tuple) and len(out) == 2)
+        Cm = condense(A, expand=False, **kw)
+        h.concrete('%s:condense(matrix only, expand=False) returns one matrix' % tag, not isinstance(Cm, tuple))
+        if not isinstance(Cm, tuple):
+            Dc = dense(Cm, h)
+            h.concrete('%s:condense(matrix only):shape' % tag, Dc.shape == (len(II), len(II)))
+            for p_, i in enumerate(II):
+                for q_, j in enumerate(II):
+                    h.zero('%s:condense(matrix only):A[%d,%d]' % (tag, p_, q_), Dc[p_, q_] - Ad[i, j])
 
 
 def check_enforce_overwrite(h, tag, n, Ad, A, b, x, D, kw):
@@ -273,6 +320,8 @@ def pattern_config(h, n, bits, forms, want):
                         check_enforce_matrix_rhs(h, tag + ':enforce-M', n, Ad, A, Md, M, x, D, kw)
                 if 'penalize' in want:
                     check_penalize(h, tag + ':penalize', n, Ad, A, b, x, D, kw, eps)
+                    if vname == 'D' and n <= 2:
+                        check_defaults(h, tag + ':defaults', n, Ad, A, b, x, D, I, kw, eps)
                     if vname == 'D' and len(D) and any(mask[i, i] for i in D) and n <= 2:
                         check_penalize_default(h, tag + ':penalize-default-epsilon', n, Ad, A, b, x, D, kw, mask)
                 if 'condense' in want and 0 < len(D) < n or ('condense' in want and len(D) == 0):
